@@ -1,7 +1,7 @@
 (* Property C10: a nested scheduler behaves as one job; nesting is transparent.
    Only property theorems here. Model R, level 0. *)
 From AJ Require Import Common.Util Run.RModel Run.RFacts Run.RFacts2 Run.RInv Run.RInv4 Run.RInv5 Run.RMon Run.RProps1
-  Run.RProps2 Run.RProps3 Props.RExample Run.RWin Run.RProps4 Run.RShut1 Run.RShut2 Run.RTime Run.RFlat Run.RInvP Run.RExc Run.RSchedDef Run.RFlatten Run.RSolve Run.RSched Run.RSchedTop.
+  Run.RProps2 Run.RProps3 Props.RExample Run.RWin Run.RProps4 Run.RShut1 Run.RShut2 Run.RTime Run.RFlat Run.RInvP Run.RExc Run.RSchedDef Run.RFlatten Run.RSolve Run.RSched Run.RSchedTop Props.C10Finding.
 
 (* (a) interface.  A nested scheduler starts (EBegin) under the very rule of an atomic job: all its
    requirements done, its parent's main loop running, a free slot in the parent's window (level
@@ -169,10 +169,21 @@ Theorem C10_nested_and_flattened_run_alike : forall c c' f, wf c = true -> wf c'
 Proof. exact nested_and_flattened_run_alike. Qed.
 Print Assumptions C10_nested_and_flattened_run_alike.
 
-(* NOT PROVED here: what happens from the instant at which a critical job raises (both runs abort
-   in that instant -- C05 -- but which of the jobs that tie with the abort still start or end is
-   decided by the order of callbacks, which nesting legitimately changes), and trees with a
-   window, a timeout or forever jobs, which the sentence excludes. *)
+(* REFUTED beyond that point (known finding F9): the sentence does not survive the first critical
+   failure.  From the instant at which a critical job raises, a tree whose nested schedulers are all
+   critical (no window, timeout, forever job) and its flattened graph may part, because a nested
+   run finishes cancelling its own jobs before its run ends and its parent aborts.  The witness is
+   a pair of histories recorded from the implementation (Props/C10Finding.v) and accepted by the
+   model at level 3: job y ends by raising in the nested tree, is cancelled in the flattened graph. *)
+Theorem C10_same_times_after_failure_refuted :
+  exists c c' f h h' y,
+    wf c = true /\ wf c' = true /\ plain c = true /\ plain c' = true /\ flat_ofb c c' f = true /\
+    forallb (fun n => negb (j_sched (jc c n)) || j_crit (jc c n)) (all_ids c) = true /\
+    accept 3 c h = true /\ accept 3 c' h' = true /\ atomic_id c y = true /\
+    In (EFinish y OExc) h /\ ~ In (ECancelHit y) h /\
+    In (ECancelHit (fname f y)) h' /\ ~ In (EFinish (fname f y) OExc) h'.
+Proof. exact same_times_after_failure_refuted. Qed.
+Print Assumptions C10_same_times_after_failure_refuted.
 
 (* non-vacuity of (f): a nested tree (critical nested scheduler 1 = {2; 3 requires 2}, job 4
    requires 1) and its flattened graph: the relation holds, both have a schedule, same instants *)
